@@ -151,11 +151,14 @@ pub struct Render {
     pub marker: u32,
     /// insert status-preserving probes after the statements of `;` sequences
     pub probes: bool,
+    /// write case patterns as `(a)` — needed when the program is placed inside `$( )`, where brush's
+    /// tokenizer ends the substitution at the first unbalanced `)` (recorded once, under C15)
+    pub paren_case: bool,
 }
 
 impl Render {
     pub fn new(probes: bool) -> Self {
-        Self { funcs: vec![], marker: 0, probes }
+        Self { funcs: vec![], marker: 0, probes, paren_case: false }
     }
     fn next(&mut self) -> u32 {
         self.marker += 1;
@@ -200,9 +203,18 @@ impl Render {
                 let m = self.next();
                 format!("for ((i{m}=0;i{m}<2;i{m}++)); do\n{}\ndone", self.stmt(b))
             }
-            S::Case(a) => format!("case a in\na) {} ;;\nesac", self.stmt(a)),
-            S::CaseFall(a, b) => format!("case a in\na) {} ;&\nb) {} ;;\nesac", self.stmt(a), self.stmt(b)),
-            S::CaseCont(a, b) => format!("case a in\na) {} ;;&\n*) {} ;;\nesac", self.stmt(a), self.stmt(b)),
+            S::Case(a) => {
+                let o = if self.paren_case { "(" } else { "" };
+                format!("case a in\n{o}a) {} ;;\nesac", self.stmt(a))
+            }
+            S::CaseFall(a, b) => {
+                let o = if self.paren_case { "(" } else { "" };
+                format!("case a in\n{o}a) {} ;&\n{o}b) {} ;;\nesac", self.stmt(a), self.stmt(b))
+            }
+            S::CaseCont(a, b) => {
+                let o = if self.paren_case { "(" } else { "" };
+                format!("case a in\n{o}a) {} ;;&\n{o}*) {} ;;\nesac", self.stmt(a), self.stmt(b))
+            }
             S::Group(a) => format!("{{ {}\n}}", self.stmt(a)),
             S::Sub(a) => format!("( {}\n)", self.stmt(a)),
             S::Call(a) => {
